@@ -87,6 +87,11 @@ def build_reference(wspec):
       x = qk.QConv2D(l["filters"], l["kernel"], padding="same",
                      kernel_quantizer=l.get("kq"), bias_quantizer=l.get("bq"),
                      name=name)(x)
+    elif t == "QActivation":
+      import qkeras as qk
+      from qkeras.quantizers import get_quantizer
+      x = qk.QActivation(get_quantizer(l["aq"]) if l.get("obj") else l["aq"],
+                         name=name)(x)
     elif t == "Activation":
       x = L.Activation(l["act"], name=name)(x)
     elif t == "Flatten":
@@ -811,6 +816,13 @@ def gen_layers(rng):
                    "kq": rng.pick(["quantized_bits(4,0,1)", "ternary", None]),
                    "bq": rng.pick([None, "quantized_bits(6,2,1)"]),
                    "aq": rng.pick([None, "quantized_relu(6,2)"])})
+  if rng.chance(0.2):
+    # an activation layer that is already quantized, configured by a string
+    # or holding a quantizer object
+    layers.append({"t": "QActivation", "name": "pqa0",
+                   "aq": rng.pick(["quantized_relu(6,2)",
+                                   "quantized_bits(5,1,1)"]),
+                   "obj": rng.chance(0.5)})
   layers.append({"t": "Dense", "name": nm("fc"), "units": rng.pick([2, 3]),
                  "act": rng.pick([None, "softmax"])})
   return kind, layers
@@ -876,7 +888,17 @@ def generate(rng):
   names = [l["name"] for l in layers if l["t"] in REGISTERED or
            l["t"] == "Activation"]
   # patterns first (dict order is the match order)
-  if rng.chance(0.5):
+  common = kind != "seq" and rng.chance(0.2)
+  if common:
+    # ONE name pattern spanning layers of different kinds: dense/conv layers
+    # and (possibly linear) Activation layers share a three-element entry, the
+    # activation role is its last element
+    for l in layers:
+      l["name"] = "b_" + l["name"]
+    names = [l["name"] for l in layers if l["t"] in REGISTERED or
+             l["t"] == "Activation"]
+    limit["^b_"] = fix_entry(gen_lim_entry(rng, "Dense"))
+  if not common and rng.chance(0.5):
     pref = rng.pick(["fc", "cv", "act", "rn"])
     matched = [l for l in layers if l["name"].startswith(pref)]
     if matched:
@@ -885,7 +907,7 @@ def generate(rng):
         limit["^%s.*" % pref] = fix_entry(gen_lim_entry(
             rng, "Activation" if cls == "Activation" else (
                 cls if cls in SEQUENCE else "Dense")))
-  if rng.chance(0.3) and names:
+  if not common and rng.chance(0.3) and names:
     n = rng.pick(names)
     l = [x for x in layers if x["name"] == n][0]
     limit["^%s$" % n] = fix_entry(gen_lim_entry(
@@ -993,7 +1015,17 @@ def directed():
               {"k": "TRIAL", "aseed": 3},
               {"k": "CRASH", "aseed": 4, "where": "after_quantize"},
               {"k": "TRIAL", "aseed": 5}]
+  blk = [{"t": "Dense", "name": "b_fc0", "units": 4, "act": None},
+         {"t": "Activation", "name": "b_act0", "act": "linear"},
+         {"t": "Dense", "name": "b_fc1", "units": 3, "act": "relu"},
+         {"t": "Activation", "name": "b_act1", "act": "relu"},
+         {"t": "Dense", "name": "b_fc2", "units": 2, "act": None}]
   worlds = [
+      # one name pattern spanning dense layers and (linear) activation layers
+      ("pattern-spanning-kinds-linear-activation", "vec", blk,
+       {"^b_": [16, 8, 2]}, {}),
+      ("pattern-spanning-kinds-list-kernel-limit", "vec", blk,
+       {"^b_": [["binary", "ternary"], 8, 4]}, {}),
       ("mlp-class-limits", "vec", mlp, {"Dense": [4, 4, 4],
                                         "Activation": [4]}, {}),
       ("mlp-low-activation-limit", "vec", mlp, {"Dense": [8, 8, 3],
